@@ -1,5 +1,5 @@
 CONSTANTS Ws = {3}  Hs = {3}  SBs = {2}  TABs = {2}  MaxOps = 7
-  Kind = "rec"  Bug = ""  Props = {"C17"}  EmitMode = "none"  EmitMod = 1
+  Kind = "rec"  Bug = ""  Props = {"C17"}  EmitMode = "sample"  EmitMod = 16
 CONSTANT Bytes <- MCBytes
 CONSTANT CurVals <- MCCurVals
 INIT Init
